@@ -12,41 +12,48 @@ import random
 
 
 class DigestMD5(object):
-    def __init__(self, challenge, digesturi):
-        self.__digesturi = digesturi
+    def __init__(self, challenge: bytes, digesturi: str):
+        self.__digesturi = digesturi.encode("utf-8")
         self.__challenge = challenge
 
         self.__params = {}
         pexpr = re.compile(r'(\w+)="(.+)"')
-        for elt in base64.b64decode(challenge).split(","):
+        challenge = base64.b64decode(challenge).decode("utf-8")
+        self.__utf8 = "charset=utf-8" in challenge
+        for elt in challenge.split(","):
             m = pexpr.match(elt)
             if m is None:
                 continue
-            self.__params[m.group(1)] = m.group(2)
+            self.__params[m.group(1)] = m.group(2).encode("utf-8")
 
-    def __make_cnonce(self):
-        ret = ""
-        for i in xrange(12):
-            ret += chr(random.randint(0, 0xFF))
+    def __make_cnonce(self) -> bytes:
+        ret = bytes(random.randint(0, 0xFF) for i in range(12))
         return base64.b64encode(ret)
 
-    def __digest(self, value):
+    def __digest(self, value: bytes) -> bytes:
         return hashlib.md5(value).digest()
 
-    def __hexdigest(self, value):
+    def __hexdigest(self, value: bytes) -> bytes:
         return binascii.hexlify(hashlib.md5(value).digest())
 
-    def __make_response(self, username, password, check=False):
-        a1 = "%s:%s:%s" % (
-            self.__digest("%s:%s:%s" % (username, self.realm, password)),
+    def __quote(self, value: bytes) -> bytes:
+        return value.replace(b"\\", b"\\\\").replace(b'"', b'\\"')
+
+    def __make_response(
+        self, username: bytes, password: bytes, authz_id: bytes = b"", check=False
+    ) -> bytes:
+        a1 = b"%s:%s:%s" % (
+            self.__digest(b"%s:%s:%s" % (username, self.realm, password)),
             self.__params["nonce"],
             self.cnonce,
         )
+        if authz_id:
+            a1 += b":%s" % authz_id
         if check:
-            a2 = ":%s" % self.__digesturi
+            a2 = b":%s" % self.__digesturi
         else:
-            a2 = "AUTHENTICATE:%s" % self.__digesturi
-        resp = "%s:%s:00000001:%s:auth:%s" % (
+            a2 = b"AUTHENTICATE:%s" % self.__digesturi
+        resp = b"%s:%s:00000001:%s:auth:%s" % (
             self.__hexdigest(a1),
             self.__params["nonce"],
             self.cnonce,
@@ -55,32 +62,36 @@ class DigestMD5(object):
 
         return self.__hexdigest(resp)
 
-    def response(self, username, password, authz_id=""):
-        self.realm = self.__params["realm"] if self.__params.has_key("realm") else ""
+    def response(self, username: bytes, password: bytes, authz_id: bytes = b"") -> str:
+        if isinstance(authz_id, str):
+            authz_id = authz_id.encode("utf-8")
+        self.realm = self.__params["realm"] if "realm" in self.__params else b""
         self.cnonce = self.__make_cnonce()
-        respvalue = self.__make_response(username, password)
+        self.__authz_id = authz_id
+        respvalue = self.__make_response(username, password, authz_id)
 
         dgres = (
-            'username="%s",%snonce="%s",cnonce="%s",nc=00000001,qop=auth,'
-            'digest-uri="%s",response=%s'
+            b'username="%s",%snonce="%s",cnonce="%s",nc=00000001,qop=auth,'
+            b'digest-uri="%s",response=%s'
             % (
-                username,
-                ('realm="%s",' % self.realm) if len(self.realm) else "",
+                self.__quote(username),
+                (b'realm="%s",' % self.__quote(self.realm)) if len(self.realm) else b"",
                 self.__params["nonce"],
                 self.cnonce,
                 self.__digesturi,
                 respvalue,
             )
         )
+        if self.__utf8:
+            dgres += b",charset=utf-8"
         if authz_id:
-            if type(authz_id) is unicode:
-                authz_id = authz_id.encode("utf-8")
-            dgres += ',authzid="%s"' % authz_id
+            dgres += b',authzid="%s"' % self.__quote(authz_id)
 
-        return base64.b64encode(dgres)
+        return base64.b64encode(dgres).decode("ascii")
 
-    def check_last_challenge(self, username, password, value):
-        challenge = base64.b64decode(value.strip('"'))
+    def check_last_challenge(self, username: bytes, password: bytes, value: bytes) -> bool:
+        challenge = base64.b64decode(value.strip().strip(b'"'))
         return challenge == (
-            "rspauth=%s" % self.__make_response(username, password, True)
+            b"rspauth=%s"
+            % self.__make_response(username, password, self.__authz_id, True)
         )
